@@ -69,6 +69,12 @@ func main() {
 		if err == nil {
 			err = writeSwallowBaseline(P, filepath.Join(*verif, "checker", "baseline_swallow.txt"))
 		}
+		if err == nil {
+			err = writeFreshErrBaseline(P, filepath.Join(*verif, "checker", "baseline_fresherr.txt"))
+		}
+		if err == nil {
+			err = writeAccessBaseline(P, filepath.Join(*verif, "checker", "baseline_access.txt"))
+		}
 		if err != nil {
 			fmt.Fprintln(os.Stderr, err)
 			os.Exit(2)
